@@ -33,6 +33,8 @@ type Run struct {
 	hist     uint64
 	poisoned bool
 	gcEvery  bool
+	// failure met while applying the scripted prologue (reported by the first Check)
+	prologueFail *wx.Failure
 }
 
 // BeginFinal implements wx.Finalizer: with VERIF_GC_EVERY_OP set, a garbage collection is forced immediately
@@ -141,6 +143,16 @@ func NewRun(c *Cfg) *Run {
 		r.lis = &recListener{r: r}
 		r.w.SetListener(r.lis)
 	}
+	for _, o := range c.Prologue {
+		if x := r.Apply(o); x.Fail != nil || x.Prune {
+			r.prologueFail = x.Fail
+			if x.Fail == nil {
+				r.prologueFail = &wx.Failure{Prop: c.Prop, Sig: "prologue-pruned", Msg: "the scripted prologue contains an operation that is not legal: " + c.OpString(o)}
+			}
+			break
+		}
+	}
+	r.hist = 0
 	return r
 }
 
@@ -241,6 +253,11 @@ func (r *Run) drain(q *ecs.Query, o *obs) {
 	cnt := q.Count()
 	if !r.w.IsLocked() {
 		o.qErr = "world not locked while the batch query is open"
+	}
+	for _, i := range []int{-1, cnt, cnt + 1} {
+		if !panics(func() { q.EntityAt(i) }) && o.qErr == "" {
+			o.qErr = fmt.Sprintf("EntityAt(%d) on a batch query with %d entities did not panic", i, cnt)
+		}
 	}
 	i := 0
 	for q.Next() {
@@ -427,7 +444,6 @@ func (r *Run) exec(op wx.Op, o *obs) (pv interface{}) {
 		f := r.build(spec, m.handle(ts))
 		cf := w.Cache().Register(f)
 		r.regs = append(r.regs, regState{plain: f, cached: cf})
-		r.lastU = nil
 	case OpRegisterTwice:
 		w.Cache().Register(&r.regs[op.A].cached)
 	case OpUnregister:
@@ -627,6 +643,9 @@ func handles(m *Model, slots []int) []ecs.Entity {
 
 // Check implements wx.Run.
 func (r *Run) Check() (f *wx.Failure) {
+	if r.prologueFail != nil {
+		return r.prologueFail
+	}
 	if r.poisoned {
 		return nil
 	}
